@@ -1,7 +1,8 @@
 #!/bin/bash
-# tools/seed_matrix.sh [ids...]   run every kept seeded change against the quick check of its property
-# (plus the cross-checks listed in seeded/<id>/also) and write seeded/RESULTS.md. JOBS changes run side by side
-# (default 4), each on its own scratch worktree of /repo's HEAD.
+# tools/seed_matrix.sh [ids...]   run the kept seeded changes (all of them, or the ones named) against the quick check of
+# their property (plus the cross-checks listed in seeded/<id>/also), keep each change's rows in seeded/<id>/result.row and
+# rebuild seeded/RESULTS.md from the rows of all changes. JOBS changes run side by side (default 4), each on its own
+# scratch worktree of /repo's HEAD.
 set -u
 cd /verif
 ids=("$@")
@@ -31,6 +32,8 @@ one() {
 }
 export -f one
 printf "%s\n" "${ids[@]}" | xargs -P ${JOBS:-4} -I{} bash -c 'one {} '$rows
-{ echo "# Seeded changes against the quick checks"; echo; echo "Generated by tools/seed_matrix.sh on $(date -u +%F) at /repo $(git -C /repo log --format=%h -1). exit 1 = VIOLATION reported, 0 = missed, 2 = harness error."; echo; echo "| change | check | exit | first violation class |"; echo "|---|---|---|---|"; for id in "${ids[@]}"; do cat $rows/$id; done; } > $out
+for id in "${ids[@]}"; do cp $rows/$id seeded/$id/result.row; done
+all=($(ls seeded | grep -E '^C[0-9]+' | sort -t- -k1,1 -k2,2n))
+{ echo "# Seeded changes against the quick checks"; echo; echo "Rebuilt by tools/seed_matrix.sh on $(date -u +%F) at /repo $(git -C /repo log --format=%h -1) from the rows kept per change (seeded/<id>/result.row, written when that change was last run). exit 1 = VIOLATION reported, 0 = missed, 2 = harness error."; echo; echo "| change | check | exit | first violation class |"; echo "|---|---|---|---|"; for id in "${all[@]}"; do [ -f seeded/$id/result.row ] && cat seeded/$id/result.row || echo "| $id | - | not run | |"; done; } > $out
 rm -rf $rows
 grep -c "| 1 |" $out; grep "| 0 |\|| 2 |\|apply\|failed" $out
